@@ -51,7 +51,7 @@ def to_program(pid, h, mode="plain"):
         def idx(v, k):
             return {"c": v} if k == "p" else add({"op": "new", "kind": "priv", "ty": "int", "v": v})
         re = a.get("re", "n")
-        i = prev if re == "p" else (idx(a["i"], a["ik"]) if a["a"] != "copyrow" else None)
+        i = prev if re == "p" else (idx(a["i"], a["ik"]) if a["a"] not in ("copyrow", "copyrow2") else None)
         tgt = brr if a["a"] in ("getb", "setb") else arr
         if a["a"] in ("get", "getrow", "getb"):
             add({"op": "getitem", "a": tgt, "i": i, "tag": "acc"})
@@ -70,10 +70,12 @@ def to_program(pid, h, mode="plain"):
                 add({"op": "branchset", "a": arr, "cond": add({"op": "new", "kind": "priv", "ty": "bool", "v": a["cnd"]}), "i": {"l": [i, j]}, "v": {"c": a["v"]}, "tag": "acc"})
             else:
                 add({"op": "setitem", "a": arr, "i": {"l": [i, j]}, "v": {"c": a["v"]}, "tag": "acc"})
+        elif a["a"] == "copyrow2":
+            add({"op": "copyrow", "a": arr, "dst": 0, "dst2": 1, "src": idx(a["j"], a["jk"]), "tag": "acc"})
         elif a["a"] == "copyrow":
             # m[dst] = m[src]: a compound statement -- read the row (may raise), then store it at the public position
             add({"op": "copyrow", "a": arr, "dst": a["i"], "src": idx(a["j"], a["jk"]), "tag": "acc"})
-        prev = i if (a["a"] != "copyrow" and a["ik"] == "s") else None
+        prev = i if (a["a"] not in ("copyrow", "copyrow2") and a["ik"] == "s") else None
         add({"op": "peek", "a": arr if brr is None else {"l": [arr, brr]}, "tag": "peek"})
     return {"id": pid, "ign": False, "steps": steps, "meta": {"hist": h}}
 
@@ -150,7 +152,7 @@ def main(tier):
         one = [h for h in hists if len(h["hist"]) == 1]
         two = [h for h in hists if len(h["hist"]) == 2]
         hists = one + thin([h for h in two if h["dim"] == 1 and not special(h)], 3000) + thin([h for h in two if h["dim"] == 2 and not special(h)], 4000) \
-            + thin([h for h in two if special(h)], 9000) + thin([h for h in two if h["hist"][0]["a"] == "copyrow"], 1500)
+            + thin([h for h in two if special(h)], 9000) + thin([h for h in two if h["hist"][0]["a"] == "copyrow"], 1500) + [h for h in two if h["hist"][0]["a"] == "copyrow2" and h["hist"][1]["a"] in ("set2", "get2", "getrow")][::3]
     progs = [to_program("h%d" % i, h) for i, h in enumerate(hists)]
     traces = common.run_programs(cfg, progs)
     for h in hists:
